@@ -55,9 +55,15 @@ def _deepcopy_sem(p: Program, fn: Any) -> list[str]:
                     return self.outside[0] if e.func.attr == 'get_first' else self.outside[1]
                 if fname in ('copy.deepcopy', 'deepcopy', 'copy.copy') and len(e.args) >= 1:
                     v = self.expr(e.args[0], env)
+                    memo_ = self.expr(e.args[1], env) if len(e.args) > 1 else next((self.expr(k.value, env) for k in e.keywords if k.arg == 'memo'), None)
                     if isinstance(v, possem.Obj) and v.cls == 'Tok':
+                        # copy.deepcopy(x, memo) returns the copy recorded in memo when x was already copied in this deepcopy operation
+                        if isinstance(memo_, dict) and fname != 'copy.copy' and id(v) in memo_:
+                            return memo_[id(v)]
                         c = possem.Obj('Tok', {'copy_of': v, 'deep': fname != 'copy.copy'}, f'copy of {v.label}')
                         self.copies.append(c)
+                        if isinstance(memo_, dict) and fname != 'copy.copy':
+                            memo_[id(v)] = c
                         return c
                     if isinstance(v, list):
                         out = []
@@ -125,8 +131,9 @@ def _deepcopy_sem(p: Program, fn: Any) -> list[str]:
         n += 1
         if not span:
             continue          # an empty tree model does not exist (first_token is a token); nothing to decide
+        memo: dict = {}
         try:
-            res = it.call_function(fn, [me, {}], {})
+            res = it.call_function(fn, [me, memo], {})
         except possem.Raised as ex:
             problems.append(f'span of {k} tokens: raises {ex}')
             break
@@ -168,6 +175,20 @@ def _deepcopy_sem(p: Program, fn: Any) -> list[str]:
                 break
         if bad:
             problems.append(f'span of {k} tokens (straddling a block boundary of the original store): {bad}')
+            break
+        # one deepcopy operation that reaches a second model whose span overlaps the first (copy.deepcopy((txn, txn.postings[0])), a dict
+        # holding a file and one of its directives): same memo, and the second copy still needs tokens of its own -- a token lives in one store
+        me2 = possem.Obj('Model', {'_token_store': store, 'first_token': span[0], 'last_token': span[0]}, 'descendant model')
+        it.me, it.span = me2, span[:1]
+        try:
+            res2 = it.call_function(fn, [me2, memo], {})
+        except possem.Raised as ex:
+            problems.append(f'second model of the same deepcopy operation: raises {ex}')
+            break
+        st2 = res2.f.get('store') if isinstance(res2, possem.Obj) and res2.cls == 'Clone' else None
+        if not (isinstance(st2, possem.Obj) and st2.cls == 'NewStore') or any(any(t is u for u in toks) for t in st2.f['tokens']):
+            problems.append('copying two models with overlapping spans in one deepcopy operation (same memo) hands the second copy tokens that '
+                            'already sit in the first copy\'s store: the token copies go through the shared memo instead of being made per model')
             break
     return problems
 
